@@ -74,13 +74,20 @@ def main():
             "name": "coq-proof+correspondence",
             "path": "/verif/check",
             "serves_properties": sorted(CLAIMED),
-            "kind_free_text": "Coq 8.16.1 theorems over hand-written executable Gallina models (coq/), tied to /repo by "
-                              "a correspondence check that runs model (vm_compute) and implementation on the same inputs "
-                              "(harness/); translators regenerate the closed-form models of C12/C20 from the Python AST",
+            "kind_free_text": "Machine-checked proof in Coq 8.16.1: theorems (coq/props, coq/gen_proofs) about executable "
+                              "Gallina models (coq/model) of the anchored code, tied to /repo's current source on every run "
+                              "in two ways: (1) fail-closed Python-ast translators regenerate Gallina definitions of the "
+                              "anchored functions and fixed proof scripts re-prove `generated = model` (or the property "
+                              "clause directly) for all arguments; (2) a correspondence check runs model (vm_compute inside "
+                              "coqc) and implementation on the same generated inputs / operation histories / fault positions "
+                              "and diffs canonicalised observables; a property oracle on the implementation supplies the "
+                              "concrete failing input for the replay",
         }],
         "checks": checks,
-        "notes": "known findings: /verif/known_findings.json; design: /verif/DESIGN.md; seeded changes used to test the "
-                 "checks: /verif/seeded/",
+        "notes": "known findings and fixed defects: /verif/known_findings.json; design, trusted base, build log: "
+                 "/verif/DESIGN.md (sections 7, 10, 11); seeded changes used to test the checks: /verif/seeded/ "
+                 "(re-verify: python3 harness/sweep.py seeded); env: VERIF_SEED, VERIF_TIER, VERIF_OUT (scratch output "
+                 "directory), QUANTEM_REPO (tree to check, default /repo)",
         "not_applicable": [{"property_id": p, "reason": PENDING_REASON} for p in ALL if p not in CLAIMED],
     }
     (VERIF / "MANIFEST.json").write_text(json.dumps(m, indent=1) + "\n")
